@@ -74,3 +74,14 @@ pub fn loop_scan_all_equal(s: &HashSet<i32>) -> Option<i32> {
     }
     Some(first / 2)
 }
+
+/// forbidden (R-RENDERKEY): the text of a value used as a set key - the rendering of a map-backed value follows hash order
+pub fn dedup_by_text(items: &[std::collections::HashMap<String, i32>]) -> usize {
+    let mut seen = HashSet::new();
+    items.iter().filter(|m| seen.insert(format!("{m:?}"))).count()
+}
+
+/// allowed (negative control): the text is only returned
+pub fn render_only(item: &std::collections::HashMap<String, i32>) -> String {
+    format!("{item:?}")
+}
